@@ -32,10 +32,12 @@ BAD = st.one_of(
 
 def message(kinds=("async", "async", "async", "sync", "bad", "unknown"),
             outs=("ret", "ret", "ValueError", "KeyboardInterrupt", "SystemExit", "CancelledError", "MyBase", "NoResult"),
-            durs=DURS, acks=(None, "sync", "async"), timeouts=(None,), at=None) -> Any:
+            durs=DURS, acks=(None, "sync", "async"), timeouts=(None,), at=None, cleanups=(0,)) -> Any:
     def build(d: Dict[str, Any]) -> Dict[str, Any]:
         if d["kind"] != "bad":
             d.pop("bad")
+        if not d["cleanup"] or d["kind"] != "async":
+            d.pop("cleanup")
         return d
 
     return st.fixed_dictionaries({
@@ -45,6 +47,7 @@ def message(kinds=("async", "async", "async", "sync", "bad", "unknown"),
         "out": st.sampled_from(list(outs)),
         "ack": st.sampled_from(list(acks)),
         "timeout": st.sampled_from(list(timeouts)),
+        "cleanup": st.sampled_from(list(cleanups)),
         "bad": BAD,
     }).map(build)
 
@@ -56,6 +59,6 @@ def sort_msgs(msgs: List[Dict[str, Any]]) -> List[Dict[str, Any]]:
 def horizon_for(sc: Dict[str, Any], extra: float = 6.0) -> float:
     msgs = sc["msgs"]
     mx = max([m["at"] for m in msgs], default=0.0)
-    tot = sum(min(m["dur"], 50.0) for m in msgs)
+    tot = sum(min(m["dur"], 50.0) + m.get("cleanup", 0) for m in msgs)
     lat = sc.get("save_latency", 0.0) * len(msgs)
     return r9(mx + tot + lat + (sc.get("stop") or 0.0) + (sc.get("W") or 0.0) + extra)
